@@ -5,12 +5,11 @@
   `toDouble` of dd; this file adds float sources / targets, the narrower integer types, and everything of qd.
 
   Modelled AS IT IS:
-    * dd(int64 / uint64) keeps only `static_cast<double>(v)` (53 bits), lo = 0;
-    * qd(int64): x[0] = double(v), x[1] = double(v − int64(x[0])) — `int64(2^63)` is the x86 "indefinite" value −2^63 and
-      the subtraction wraps, which happens to give the right tail; x[2], x[3] are NOT written (they keep their old content);
-    * qd(uint64): x[1] = double(v − uint64(x[0])) in unsigned arithmetic: when x[0] was rounded UP the difference wraps to
-      ≈ 2^64, and `uint64(2^64)` is 0 on x86-64 (g++ emits cvttsd2si(x − 2^63) xor 2^63);
-    * (long long)dd / qd = int64(x0) + int64(x1) (limb-wise truncation, the lower qd limbs are ignored);
+    * dd / qd (int64 / uint64): `low = v & 0xFFFFFFFF; h = double(v − low); l = double(low); x0 = h + l; x1 = l − (x0 − h)`
+      (`DD.ofInt64`), qd additionally x[2] = x[3] = 0 (after the repairs: exact for every 64-bit integer);
+    * (long long)dd = int64(hi) + int64(lo) + correction (`DD.tailAdjust`: truncation of the VALUE toward zero), unsigned reads
+      take the head through uint64_t from 2^63 on (`DD.toUInt64`);  (long long)qd sums the integer parts of all four limbs
+      and lets the first limb with a fraction decide the correction (`qdToIntStep`);
     * double(qd) = ((x0 + x1) + x2) + x3 in double arithmetic (three roundings);  float(dd) = float(hi + lo) (two roundings).
   Core Lean only.
 -/
@@ -33,18 +32,6 @@ def narrow32 : F → F
   | .fin s n => roundShr b32 s n (b64.q - b32.q)
   | x => x
 
-/-- `static_cast<uint64_t>(double)` as g++ emits it for x86-64: below 2^63 `cvttsd2si`, otherwise
-    `cvttsd2si(x − 2^63) xor 2^63` (so 2^64 ↦ 0); negative values wrap like the signed conversion. -/
-def toU64 (a : F) : Nat :=
-  match truncInt b64 a with
-  | some z =>
-    if z < (2 ^ 63 : Int) then ofSigned 64 (toI64 b64 a)
-    else
-      let t := z - (2 ^ 63 : Int)
-      let c : Int := if t < (2 ^ 63 : Int) then t else -(2 ^ 63 : Int)
-      (ofSigned 64 c) ^^^ 2 ^ 63
-  | none => 2 ^ 63
-
 /-! ### dd -/
 
 /-- `dd = float`: (double(f), 0) -/
@@ -53,8 +40,9 @@ def ddFromF32 (x : F) : DD.DD := ⟨widen32 x, pzero⟩
 /-- `float(dd)` = float(hi + lo) -/
 def ddToF32 (a : DD.DD) : F := narrow32 (F64.add b64 a.hi a.lo)
 
-/-- `Signed(h + l)` / `Unsigned(h + l)` with int64 h, l: the low `sz` bits of the wrapped sum -/
-def ddToInt (sz : Nat) (a : DD.DD) : Nat := ofSigned 64 (DD.toInt64 b64 a) % 2 ^ sz
+/-- `Signed(h + l)` / `Unsigned(h + uint64_t(l))`: the low `sz` bits of the wrapped sum -/
+def ddToInt (sz : Nat) (signed : Bool) (a : DD.DD) : Nat :=
+  (if signed then ofSigned 64 (DD.toInt64 b64 a) else DD.toUInt64 b64 a) % 2 ^ sz
 
 /-! ### qd -/
 
@@ -63,36 +51,41 @@ abbrev QD := F × F × F × F
 def qdFromF64 (x : F) : QD := (x, pzero, pzero, pzero)
 def qdFromF32 (x : F) : QD := (widen32 x, pzero, pzero, pzero)
 
-/-- `qd = int64`: x[2], x[3] keep `p2`, `p3` -/
-def qdFromI64 (v : Int) (p2 p3 : F) : QD :=
-  if v = 0 then (pzero, pzero, pzero, pzero)
-  else
-    let x0 := ofInt b64 v
-    let x1 := ofInt b64 (wrapI64 (v - toI64 b64 x0))
-    (x0, x1, p2, p3)
-
-/-- `qd = uint64` -/
-def qdFromU64 (v : Nat) (p2 p3 : F) : QD :=
-  if v = 0 then (pzero, pzero, pzero, pzero)
-  else
-    let x0 := ofInt b64 (v : Int)
-    let d : Nat := (v + 2 ^ 64 - toU64 x0) % 2 ^ 64
-    let x1 := ofInt b64 (d : Int)
-    (x0, x1, p2, p3)
+/-- `qd = int64` / `qd = uint64` (every narrower type converts to one of them first): the same statement sequence as dd —
+    the two halves of the integer, an inline quick_two_sum into x[0], x[1] — and `x[2] = x[3] = 0.0`.  No cast back to an
+    integer type any more. -/
+def qdFromInt (v : Int) : QD :=
+  let d := DD.ofInt64 b64 v
+  (d.hi, d.lo, pzero, pzero)
 
 /-- `double(qd)` = x[0] + x[1] + x[2] + x[3], left to right -/
 def qdToF64 (a : QD) : F := F64.add b64 (F64.add b64 (F64.add b64 a.1 a.2.1) a.2.2.1) a.2.2.2
 
 def qdToF32 (a : QD) : F := narrow32 (qdToF64 a)
 
-/-- `Signed(int64(x[0]) + int64(x[1]))` -/
-def qdToInt (sz : Nat) (a : QD) : Nat := ofSigned 64 (wrapI64 (toI64 b64 a.1 + toI64 b64 a.2.1)) % 2 ^ sz
+/-- one iteration of the loop of `qd::convert_to_signed` / `convert_to_unsigned` (state: sum, decided):
+      `t = std::trunc(x[i]);  sum += int64_t(t)`   (unsigned: `t < 2^63 ? uint64_t(int64_t(t)) : uint64_t(t)`)
+      `f = x[i] - t;  if (!decided && f != 0.0) { if (x[0] > 0.0 && f < 0.0) --sum;  if (x[0] < 0.0 && f > 0.0) ++sum;  decided = true; }`
+    (casting `trunc(x)` and casting `x` give the same integer; `trunc(x) < 2^63 ⇔ x < 2^63`) -/
+def qdToIntStep (unsigned : Bool) (x0 : F) (st : Int × Bool) (xi : F) : Int × Bool :=
+  let ti : Int :=
+    if unsigned && !(flt xi (ofNatExact b64 (2 ^ 63))) then ((toU64 b64 xi : Nat) : Int) else toI64 b64 xi
+  let fr := fracPart b64 xi
+  let sum := st.1 + ti
+  if !st.2 && nez fr then
+    (sum + (if fgt x0 pzero && flt fr pzero then -1 else 0) + (if flt x0 pzero && fgt fr pzero then 1 else 0), true)
+  else (sum, st.2)
+
+/-- `Signed(sum)` / `Unsigned(sum)` after the four iterations: the low `sz` bits of the wrapped sum -/
+def qdToInt (sz : Nat) (signed : Bool) (a : QD) : Nat :=
+  let st := [a.1, a.2.1, a.2.2.1, a.2.2.2].foldl (qdToIntStep (!signed) a.1) (0, false)
+  ofSigned 64 st.1 % 2 ^ sz
 
 /-! ### long double (x87 extended: 64-bit significand, 15 exponent bits) sources, dd_impl.hpp:638-645 / qd_impl.hpp:908-917
 
       volatile long double truncated = static_cast<long double>(double(rhs));
       volatile double remainder = static_cast<double>(rhs - truncated);
-      hi = static_cast<double>(truncated);  lo = remainder;                                                      -/
+      hi = static_cast<double>(truncated);  lo = std::isfinite(hi) ? remainder : 0.0;                            -/
 
 abbrev x87 : Fmt := Fmt.ieee 64 15
 
@@ -116,7 +109,8 @@ def widenLD : F → F
 def ddFromLD (x : F) : DD.DD :=
   let truncated := widenLD (narrowLD x)
   let remainder := narrowLD (F64.sub x87 x truncated)
-  ⟨narrowLD truncated, remainder⟩
+  let hi := narrowLD truncated
+  ⟨hi, if hi.isFinite then remainder else pzero⟩
 
 def qdFromLD (x : F) : QD :=
   let d := ddFromLD x
